@@ -162,3 +162,95 @@ def fold_finish(m: Model, lgs, lg, deep=False):
     out = (results, sorted(consulted))
     _cache[key] = out
     return out
+
+
+def fold_identity_completion(m: Model, lgs, lg):
+    """Classical family: after finish(), at every world the Identity extension is an equivalence relation on the
+    model's constants and every predicate's extension is closed under replacing an occurrence of a constant by an
+    identical one -- for every order in which the values were set (the stores are dicts: insertion order is the history)."""
+    key = ('identity', _key(m, lg))
+    if key in _cache:
+        return _cache[key]
+    consulted = set()
+    it = Interp(dict(deque=deque, group=lambda *a: tuple(a), IllegalStateError=lambda *a: 'IllegalStateError', type=type, str=str),
+                where=f'{lg.name}.Model.finish', modtree=m.trees[MODELS])
+    sub = m.func(TOOLS, 'substitute')
+    it.g['substitute'] = lambda c, old, new: it.call(sub, [c, old, new])
+    Identity, Existence, F, G = Obj('Identity'), Obj('Existence'), Obj('F'), Obj('G')
+    it.g['Predicate'] = Obj('Predicate', Identity=Identity, Existence=Existence)
+    ModelC = bound_class(m, it, lg.modelcls, consulted=consulted)
+    AccessC = bound_class(m, it, lg.accesscls, base=defaultdict, consulted=consulted)
+    results = []
+    a, b, c = 'a', 'b', 'c'
+    scenarios = [
+        ('a=b', [(Identity, (a, b))]),
+        ('b=a', [(Identity, (b, a))]),
+        ('a=b, b=c', [(Identity, (a, b)), (Identity, (b, c))]),
+        ('b=c, a=b', [(Identity, (b, c)), (Identity, (a, b))]),
+        ('a=b, c=b', [(Identity, (a, b)), (Identity, (c, b))]),
+        ('Fa, a=b', [(F, (a,)), (Identity, (a, b))]),
+        ('a=b, Fa', [(Identity, (a, b)), (F, (a,))]),
+        ('b=a, Fa', [(Identity, (b, a)), (F, (a,))]),
+        ('Gaa, a=b', [(G, (a, a)), (Identity, (a, b))]),
+        ('Gac, a=b, b=c', [(G, (a, c)), (Identity, (a, b)), (Identity, (b, c))]),
+    ]
+    for label, sets in scenarios:
+        mdl = ModelC()
+
+        def mkframe():
+            return Obj('frame', atomics={}, opaques={}, predicates=defaultdict(PI))
+        fr = defaultdict(mkframe)
+        fr[0]
+        for pred, params in sets:
+            fr[0].predicates[pred][params] = 'T'
+        mdl.frames = fr
+        R = AccessC(set)
+        R[0]
+        mdl.R = R
+        mdl.Meta = Obj('Meta', modal=lg.modal, unassigned_value='F', quantified=lg.quantified)
+        mdl.values = Obj('values')
+        mdl.constants = {a, b, c}
+        mdl.sentences = set()
+        mdl._finished = False
+        mdl._is_frame_complete = False
+        try:
+            mdl.finish()
+            err = None
+        except Raised as e:
+            err = e.text
+        except (TypeError, KeyError, AttributeError, IndexError, ValueError, RuntimeError) as e:
+            err = f'{type(e).__name__}: {e}'
+        probs = []
+        if err:
+            probs.append(('raises', f'finish() raises {err}'))
+        else:
+            ext = {p for p, v in mdl.frames[0].predicates[Identity].items() if v == 'T'}
+            consts = (a, b, c)
+            if any((x, x) not in ext for x in consts):
+                probs.append(('reflexive', 'identity is not reflexive on the constants'))
+            asym = sorted((x, y) for x, y in ext if (y, x) not in ext)
+            if asym:
+                probs.append(('symmetric', f'identity is not symmetric: {["%s=%s" % p for p in asym]} true but not the converse'))
+            intr = sorted((x, z) for x, y in ext for y2, z in ext if y == y2 and (x, z) not in ext)
+            if intr:
+                probs.append(('transitive', f'identity is not transitive: {["%s=%s" % p for p in intr]} missing'))
+            for pred in (F, G):
+                pe = {p for p, v in mdl.frames[0].predicates[pred].items() if v == 'T'}
+                miss = set()
+                for params in pe:
+                    for i, x in enumerate(params):
+                        for (u, v) in ext:
+                            if u == x:
+                                new = params[:i] + (v,) + params[i + 1:]
+                                if new not in pe:
+                                    miss.add(new)
+                if miss:
+                    probs.append(('respects', f'the extension of {pred._name} does not respect identity: {sorted(pred._name + "".join(p) for p in pe)} true, '
+                                  f'{sorted(pred._name + "".join(p) for p in miss)} not'))
+        if not probs:
+            results.append((True, label, 'ok', 'identity is an equivalence respected by every extension'))
+        for kind, text in probs:
+            results.append((False, label, kind, text))
+    out = (results, sorted(consulted))
+    _cache[key] = out
+    return out
